@@ -323,3 +323,7 @@ def run(chk, prog):
         chk.require(okk, "D5", "%s folds every copy into its original exactly once" % full, where(fn), detail,
                     function=fn["full"], construct="fold once")
     chk.floor("D5", n, 10)
+    # ---- D7: the list of copies and the copy -> original map stay parallel ------------------------------
+    from . import c03_parallel
+    n7 = c03_parallel.rule_D7(chk, prog.library())
+    chk.floor("D7", n7, 1)
